@@ -25,3 +25,19 @@ package channel
 //@   loop 1 invariant optlog == old(optlog) ++ applied(options, box("*channel.OperationOptions", o), rangeindex + 1)
 //@   loop 1 invariant rangeindex == -1 ==> o.StripPrompt && !o.Eager && !o.ExactMatchInput && o.Timeout == -1
 //@   ensures #defaults result.1 == nil && len(options) == 0 ==> result.0.StripPrompt && !result.0.Eager && !result.0.ExactMatchInput && result.0.Timeout == -1
+
+// ---- C01 / C03 / C09 / C16: what a channel write puts on the wire ---------------------------------------------
+//@ func (*Channel).Write [C01 C16 C11]
+//@   modifies wire
+//@   ensures #exact-bytes result == nil ==> wire == old(wire) ++ b
+//@   ensures #nothing-on-error result != nil ==> wire == old(wire)
+
+//@ func (*Channel).WriteReturn [C01 C16]
+//@   modifies wire
+//@   ensures #exactly-one-return result == nil ==> wire == old(wire) ++ c.ReturnChar
+//@   ensures #nothing-on-error result != nil ==> wire == old(wire)
+
+//@ func (*Channel).WriteAndReturn [C01 C16]
+//@   modifies wire
+//@   ensures #input-then-return result == nil ==> wire == old(wire) ++ b ++ c.ReturnChar
+//@   ensures #partial-only-on-error result != nil ==> wire == old(wire) || wire == old(wire) ++ b
